@@ -285,9 +285,6 @@ func handleHRANDFIELD(params internal.HandlerFuncParams) ([]byte, error) {
 		if err != nil {
 			return nil, errors.New("count must be an integer")
 		}
-		if c == 0 {
-			return []byte("*0\r\n"), nil
-		}
 		count = c
 	}
 
@@ -307,6 +304,11 @@ func handleHRANDFIELD(params internal.HandlerFuncParams) ([]byte, error) {
 	hash, ok := params.GetValues(params.Context, []string{key})[key].(map[string]interface{})
 	if !ok {
 		return nil, fmt.Errorf("value at %s is not a hash", key)
+	}
+
+	// A count of 0 selects nothing, but only after the modifier and the type of the key have been checked.
+	if count == 0 {
+		return []byte("*0\r\n"), nil
 	}
 
 	// If count is the >= hash length, then return the entire hash
